@@ -128,12 +128,17 @@ structure Env where
   w : Nat
   h : Nat
   fullScreen : Bool
-  /-- `attrs_for_style_string[style]` -/
-  rawOf : Nat → Attrs
+  /-- `attrs_for_style_string[style]` under the style / style transformation with (interned) hash `key` -/
+  rawAt : Nat → Nat → Attrs
+  /-- the current style + transformation hash (interned) -/
+  key : Nat
   /-- `color_depth` (1, 4, 8, 24) -/
   depth : Nat
   /-- what a terminal displays for `set_attributes(attrs, depth)` -/
   enc : Nat → Attrs → Attrs
+
+/-- `attrs_for_style_string[style]` (current style) -/
+def Env.rawOf (e : Env) (style : Nat) : Attrs := e.rawAt e.key style
 
 /-- the attributes a cell of this style is displayed with at the current colour depth -/
 def Env.attrsOf (e : Env) (style : Nat) : Attrs := e.enc e.depth (e.rawOf style)
